@@ -310,7 +310,11 @@ def build_compressed_api(cs):
             d.nc_set_dimension(nm["dims"][str(i)])
         akeys.append(f.set_construct(d))
     C = make_array(cshape, cs["dtype"], 7, cs.get("mask"))
-    f.set_data(cfdm.Data(cs_wrap(cs, C, ushape, vars_)), axes=akeys)
+    if cs.get("data_plain"):
+        # the data are not compressed; some metadata constructs are (each with its list variable)
+        f.set_data(cfdm.Data(make_array(ushape, cs["dtype"], 7, cs.get("mask"))), axes=akeys)
+    else:
+        f.set_data(cfdm.Data(cs_wrap(cs, C, ushape, vars_)), axes=akeys)
     nlead = len(ushape) - len(cs.get("trail", [])) if k != "gathered" else None
     for j, c in enumerate(cs.get("cons", [])):
         # over: list of axis positions of the uncompressed field; comp: stored compressed like the data
@@ -323,6 +327,14 @@ def build_compressed_api(cs):
         if c.get("comp"):
             if k == "gathered":
                 sub = dict(cs, shape=shape, pos=axes.index(cs["pos"]))
+                vars2 = vars_
+                if c.get("list") is not None:
+                    # gathered over the same dimensions with a list variable of its own
+                    sub["list"] = c["list"]
+                    lv = cfdm.List(data=cfdm.Data(np.array(c["list"], dtype="i4")))
+                    if c.get("list_name"):
+                        lv.nc_set_variable(c["list_name"])
+                    vars2 = {"list": lv}
             elif k == "indexed_contiguous" and len(axes) == 2:
                 sub = {"ckind": "indexed", "index": cs["pindex"], "ninst": cs["ninst"]}
                 vars2 = {"index": vars_["index"]}
@@ -330,7 +342,7 @@ def build_compressed_api(cs):
                 sub = dict(cs, trail=[])
             ush, csh, _ = cs_layout(sub)
             Cc = make_array(csh, c.get("dtype", "f8"), 11 * (j + 1), c.get("mask"))
-            x.set_data(cfdm.Data(cs_wrap(sub, Cc, ush, vars_ if sub["ckind"] == k else vars2)))
+            x.set_data(cfdm.Data(cs_wrap(sub, Cc, ush, vars2 if (k == "gathered" or sub["ckind"] != k) else vars_)))
         else:
             x.set_data(cfdm.Data(make_array(shape, c.get("dtype", "f8"), 11 * (j + 1), c.get("mask"))))
         f.set_construct(x, axes=[akeys[a] for a in axes])
@@ -402,8 +414,15 @@ def build_compressed_file(cs, fn):
         if c.get("comp"):
             if k == "gathered":
                 sub = dict(cs, shape=shape, pos=axes.index(cs["pos"]))
+                ldim = lname
+                if c.get("list") is not None:
+                    # a list variable of its own over the same dimensions
+                    sub["list"] = c["list"]
+                    ldim = c.get("list_name") or "lp%d" % j
+                    nc.createDimension(ldim, len(c["list"]))
+                    put(ldim, [ldim], np.array(c["list"], dtype="i4"), {"compress": " ".join(udims[p0:p0 + n])})
                 ush, csh, _ = cs_layout(sub)
-                vd = [udims[a] for a in axes[:sub["pos"]]] + [cdims[cs["pos"]]] + [udims[a] for a in axes[sub["pos"] + cs["k"]:]]
+                vd = [udims[a] for a in axes[:sub["pos"]]] + [ldim] + [udims[a] for a in axes[sub["pos"] + cs["k"]:]]
                 nlead = None
             elif k == "indexed_contiguous" and len(axes) == 2:
                 sub, csh, vd, nlead = cs, [len(cs["pcount"])], [nm.get("profile") or "profile"], 2
@@ -431,8 +450,13 @@ def build_compressed_file(cs, fn):
     if ancs:
         attrs["ancillary_variables"] = " ".join(ancs)
     dname = nm.get("data") or "ta"
-    put(dname, cdims, C, attrs)
-    expected[dname] = cs_uncompress(cs, C)
+    if cs.get("data_plain"):
+        U = make_array(ushape, cs["dtype"], 7, cs.get("mask"))
+        put(dname, udims, U, attrs)
+        expected[dname] = np.ma.asanyarray(U)
+    else:
+        put(dname, cdims, C, attrs)
+        expected[dname] = cs_uncompress(cs, C)
     nc.close()
     return expected, dname
 
